@@ -21,7 +21,7 @@ def model_oracle(ctx, res, name, idxfile, block):
     if os.path.exists(p):
         lines = open(p).read().split("\n")
     seen = {}
-    for m in re.finditer(r"\((\d+),\s*(\d+)\)", val):
+    for m in re.finditer(r"\(\s*(\d+)(?:%nat)?\s*,\s*(\d+)\s*\)", val):
         i, cls = int(m.group(1)), int(m.group(2))
         cname, oracle = VIOLATION_CLASS.get(cls, ("class-%d" % cls, "property predicate on the observation"))
         key = "C01:model-oracle:%s:%s" % (cname, block)
